@@ -3,6 +3,9 @@
 (and, where stated, the specification's) answer per line on stdout.
 -/
 import FendModel.Model.Proto
+import FendModel.Model.Json
+import FendModel.Model.Inline
+import FendModel.Model.StrLit
 
 open Fend Fend.Proto
 
@@ -38,6 +41,52 @@ def biguintLine (line : String) : String :=
   | ["val", a] => u1 (fun x => s!"{x.val}") a
   | _ => "bad-op"
 
+/-- code points as space-separated lower-case hex; the empty line is the empty text -/
+def parseHexCps (s : String) : Option (List Nat) :=
+  let t := s.trimAscii.toString
+  if t.isEmpty then some [] else
+  let parts := t.splitOn " "
+  let hexv (w : String) : Option Nat :=
+    w.toList.foldl (fun acc c => match acc, Fend.Json.hexVal c.toNat with
+      | some a, some d => some (a * 16 + d) | _, _ => none) (some 0)
+  let ns := parts.filterMap hexv
+  if ns.length = parts.length then some ns else none
+
+def hexStr (n : Nat) : String := String.ofList (Nat.toDigits 16 n)
+def showCps (l : List Nat) : String := " ".intercalate (l.map hexStr)
+
+def jsonLine (line : String) : String :=
+  match parseHexCps line with
+  | none => "bad-op"
+  | some cps => showCps (Fend.Json.escapeString cps)
+
+def jsonDecLine (line : String) : String :=
+  match parseHexCps line with
+  | none => "bad-op"
+  | some cps => match Fend.Json.jsonDecodeString cps with
+    | none => "none"
+    | some r => "some " ++ showCps r
+
+def inlineLine (line : String) : String :=
+  match parseHexCps line with
+  | none => "bad-op"
+  | some cps =>
+    let input := cps.map Char.ofNat
+    let parts := Fend.Inline.inlineSubst (fun (_ : Unit) s => ((), Fend.Inline.Res.output s)) () input
+    "|".intercalate (parts.map fun p => match p with
+      | .unprocessed s => "U " ++ showCps (s.map Char.toNat)
+      | .evaluated src _ => "E " ++ showCps (src.map Char.toNat))
+
+/-- `<terminator-hex> <body code points…>`: the body is everything after the opening quote -/
+def strlitLine (line : String) : String :=
+  match parseHexCps line with
+  | some (term :: body) =>
+    match Fend.StrLit.parseStringLiteral term body with
+    | .ok (text, []) => "ok " ++ showCps text
+    | .ok (_, _) => "skip"
+    | .error e => "err " ++ e.name
+  | _ => "bad-op"
+
 partial def loop (h : IO.FS.Stream) (out : IO.FS.Stream) (f : String → String) : IO Unit := do
   let line ← h.getLine
   if line.isEmpty then return ()
@@ -49,4 +98,8 @@ def main (args : List String) : IO UInt32 := do
   let stdout ← IO.getStdout
   match args with
   | ["biguint"] => loop stdin stdout biguintLine; return 0
+  | ["json"] => loop stdin stdout jsonLine; return 0
+  | ["jsondec"] => loop stdin stdout jsonDecLine; return 0
+  | ["inline"] => loop stdin stdout inlineLine; return 0
+  | ["strlit"] => loop stdin stdout strlitLine; return 0
   | _ => IO.eprintln "usage: fend_model_driver <stream>"; return 2
